@@ -57,12 +57,19 @@ class Net:
             s.positions.update(allpos)
         self.links = {i: [j for j in range(n) if j != i and (topo == "mesh" or abs(i - j) == 1)] for i in range(n)}
         self.queue = []
+        self.lossy = rng.random() < 0.4
 
     def now(self):
         return rs.VCLOCK.its_ms()
 
     def tick(self, ms):
+        """advance the clock; every station refreshes the timestamp of its ego position vector (a real station does so
+        at least once per second, otherwise its peers would age it out of their location tables)"""
         rs.VCLOCK.advance(ms)
+        for i, s in enumerate(self.st):
+            pv = list(s.ego)
+            pv[3] = self.now() % 2 ** 32
+            self.do(i, {"ev": "ego", "pv": pv})
 
     def do(self, i, ev):
         s = self.st[i]
@@ -71,13 +78,17 @@ class Net:
             self.queue.append((i, p))
         return obs
 
-    def pump(self, limit=4000):
-        """deliver frames in flight (FIFO) and fire CBF timers when the ether is idle"""
+    def pump(self, limit=4000, fire_ls=False):
+        """deliver frames in flight (FIFO) and fire CBF timers when the ether is idle; a share of the LS request
+        frames is lost on the air (the retransmit timer recovers them when fire_ls is set)"""
         steps = 0
         while steps < limit:
             steps += 1
             if self.queue:
                 i, pkt = self.queue.pop(0)
+                if len(pkt) > 5 and pkt[5] == 0x60 and self.lossy and self.ctx.rng.random() < 0.5:
+                    self.ctx.count(1, "ls_request_frame_lost")
+                    continue
                 for j in self.links[i]:
                     self.do(j, rs.rx_event_from_octets(self.st[j], pkt, self.now(),
                                                        extra_dests=[(s.ego[4], s.ego[5]) for s in self.st]))
@@ -96,6 +107,15 @@ class Net:
                         break
                 if fired:
                     break
+            if not fired and fire_ls:
+                for i, s in enumerate(self.st):
+                    for kk in list(s.router._ls_timers.keys()):
+                        self.tick(1000)
+                        self.do(i, {"ev": "ls", "sought": list(stack.addr_tuple(kk))})
+                        fired = True
+                        break
+                    if fired:
+                        break
             if not fired:
                 break
         return steps
@@ -164,8 +184,8 @@ def scenario(ctx, n_st, topo, alg, n_req, know_each_other):
         if rng.random() < 0.6:
             net.pump()
         if rng.random() < 0.3:
-            net.tick(rng.choice([1, 20, 300]))
-    net.pump()
+            net.tick(rng.choice([20, 50, 300]))      # >= 20 ms: keeps the packet data rate below the B.2 limiter
+    net.pump(fire_ls=True)
     # ------------------------------------------------------------------ oracle
     for sender, ev in requests:
         s = net.st[sender]
@@ -189,9 +209,13 @@ def scenario(ctx, n_st, topo, alg, n_req, know_each_other):
                 want = 1 if ev.get("dest_idx") == j else 0
             if ev["p1"] not in r.ports:
                 want = 0
+            if topo == "line" and want and kind != "shb":
+                # multi-hop: the receiver must be within the hop budget of the request (else no verdict)
+                hl = ev["r"]["req_hl"] if ev["r"]["req_hl"] > 1 else 10
+                if abs(sender - j) > hl:
+                    continue
             # identical payloads of different requests are indistinguishable: only count when unique
-            same = [1 for (s2, e2) in requests if e2["payload"] == ev["payload"] and e2["p1"] == ev["p1"]
-                    and e2["btp_type"] == ev["btp_type"]]
+            same = [1 for (s2, e2) in requests if e2["payload"] == ev["payload"] and e2["p1"] == ev["p1"]]
             if len(same) > 1:
                 continue
             if len(got) != want:
@@ -222,7 +246,9 @@ def scenario(ctx, n_st, topo, alg, n_req, know_each_other):
         seq = {}
         for (p, i) in r.btp_deliveries:
             for (snd, e) in requests:
-                if e["kind"] == "guc" and e["payload"] == i.data and e["p1"] == p and _from(i, net.st[snd]):
+                if (e["kind"] == "guc" and e.get("dest_idx") == j and e["payload"] == i.data and e["p1"] == p
+                        and _from(i, net.st[snd])
+                        and len([1 for (_, e2) in requests if e2["payload"] == e["payload"] and e2["p1"] == p]) == 1):
                     seq.setdefault((snd, p), []).append(e["rid"])
                     break
         for key, rids in seq.items():
